@@ -57,6 +57,7 @@ def all_trees(max_n, alpha):
 # tree labels are tokens: a plain name, or name + '_' + str(params) for a node with params - the token is
 # what description() renders after the 'n_' prefix, so distinct tokens <=> distinct (name, params)
 LABELS = {'a': ('a', None), 'b': ('b', None), 'c': ('c', None),
+          '0': (0, None), 'False': (False, None), '0.0': (0.0, None),      # non-string falsy names
           "a_{'k': 1}": ('a', {'k': 1}), "a_{'k': 2}": ('a', {'k': 2})}
 
 
@@ -211,6 +212,9 @@ def run_tree_pool(ctx, group, trees, workers=1, canary=True, shared=None):
 # group (b): random DAGs x permutations of listing order / parent order / fresh identities
 # ----------------------------------------------------------------------------------------
 NAMES = ['a', 'b', 'c', 'ab', 'a_b', 'n', 'scaling', 'a;b', 'x(y', 'z)', 'p/q', '(', ';', 'ID_CYCLED', 'A', '0', ' ']
+# names that are not strings, the falsy ones included (index-named nodes 0..n-1 are common): description()
+# renders every name that is not None through str()
+NONSTR = [0, False, 0.0, 1, 2, True, 2.5]
 PARAMS = [None, None, None, {}, {'k': 1}, {'k': 2}, {'a': 1, 'b': 'x'}, {'t': (1, 2)}, {'s': 'a;b)/('}, {'n': None}]
 
 
@@ -271,14 +275,19 @@ def snapshot(g):
     order-preserving way (only their relative order inside one graph is observable) unless some label is
     derived from a uid (empty name)"""
     pos = {id(n): i for i, n in enumerate(g.nodes)}
-    if any(n.name == '' for n in g.nodes):
+    # name and params are read from the raw content (not through the node's own name / parameters properties,
+    # which are part of the code under test): the model's name is str(name) for every name that is not None
+    raw = [n.content.get('name') for n in g.nodes]
+    names = ['' if r is None else str(r) for r in raw]
+    if any(nm == '' for nm in names):
         ren = {n.uid: n.uid for n in g.nodes}
     else:
         ren = {u: 'u%02d' % k for k, u in enumerate(sorted({n.uid for n in g.nodes}))}
     out = []
-    for n in g.nodes:
-        pr = n.parameters
-        out.append([ren[n.uid], n.name, str(pr) if pr else '', [pos[id(p)] for p in n.nodes_from]])
+    for n, nm, r in zip(g.nodes, names, raw):
+        pr = n.content.get('params')
+        out.append([ren[n.uid], nm, str(pr) if pr else '', [pos[id(p)] for p in n.nodes_from],
+                    r if isinstance(r, (bool, int, float)) else None])      # raw non-string name, for replays
     return out
 
 
@@ -298,7 +307,7 @@ def c_bs(s):
 
 def dg_coq(snap):
     return c_list(['(mk_node %s %s %s %s)' % (c_bs(u), c_bs(nm), c_bs(pr), c_list(map(c_nat, ps), 'nat'))
-                   for u, nm, pr, ps in snap], 'node')
+                   for u, nm, pr, ps in (e[:4] for e in snap)], 'node')
 
 
 def observe(g):
@@ -417,15 +426,18 @@ def triple_case(g1, g2, g3, f12, f23):
 def graph_from_snapshot(snap):
     """rebuild a real graph from a replay snapshot (uids restored)"""
     nodes = []
-    for u, nm, pr, ps in snap:
+    for e in snap:
+        u, nm, pr, ps = e[:4]
         content = {'name': nm if nm != '' else None}
+        if len(e) > 4 and e[4] is not None:
+            content['name'] = e[4]          # a non-string name (0, False, 0.0, ...)
         if pr:
             content['params'] = eval(pr, {'__builtins__': {}})   # repr of a literal dict (own replay files only)
         nd = OptNode(content)
         nd.uid = u
         nodes.append(nd)
-    for nd, (u, nm, pr, ps) in zip(nodes, snap):
-        nd.nodes_from = [nodes[p] for p in ps]
+    for nd, e in zip(nodes, snap):
+        nd.nodes_from = [nodes[p] for p in e[3]]
     g = OptGraph()
     g.nodes = nodes
     return g
@@ -455,7 +467,7 @@ def run_dags(ctx, n_triples):
     for it in range(n_triples):
         n = rng.choice([1, 2, 3, 3, 4, 4, 5, 5, 6, 6, 7, 8, 9, 10])
         single = rng.random() < 0.5
-        names = rng.choice([NAMES[:2], NAMES[:3], NAMES[:6], NAMES])
+        names = rng.choice([NAMES[:2], NAMES[:3], NAMES[:6], NAMES, NONSTR, NONSTR[:3] + NAMES[:2]])
         params_on = rng.random() < 0.5
         spec = random_spec(rng, n, single, names, params_on)
         flavour = 'dag'
@@ -551,7 +563,8 @@ def run(ctx):
     ctx.rule = ('(a) trees: every ordered pair of labelled plane trees (quick: <=5 nodes over {a,b} and <=3 nodes over 4 '
                 'labels two of which differ in params only; thorough: <=6 nodes over {a,b}, <=4 nodes over {a,b,c} '
                 'and <=4 nodes over the 4 labels; plus a pool holding every tree <=4 (thorough <=5) nodes over {a,b} twice: '
-                'from fresh nodes and from deepcopies sharing one uid per label); one evaluation = one ordered pair '
+                'from fresh nodes and from deepcopies sharing one uid per label; plus <=3 (thorough <=4) nodes over the '
+                'names a, 0, False, 0.0 [non-string, falsy]); one evaluation = one ordered pair '
                 '(real == called); '
                 'distinct non-trivial = distinct tree with >=2 nodes (row of the pair matrix).  (b) dags: triples '
                 '(g1 [18%: some nodes are deepcopies of other nodes of the same graph = distinct objects with one uid], '
@@ -575,6 +588,10 @@ def run(ctx):
     alpha = ['a', 'b', "a_{'k': 1}", "a_{'k': 2}"]
     run_tree_pool(ctx, 'trees-params', all_trees(ctx.pick(3, 4), alpha), workers=ctx.pick(1, 6))
     ctx.set_exhaustive('trees-params', True)
+    # node names that are not strings: the integer 0, False, 0.0 (falsy but not None) next to a string
+    run_tree_pool(ctx, 'trees-nonstring-names', all_trees(ctx.pick(3, 4), ['a', '0', 'False', '0.0']),
+                  workers=ctx.pick(1, 6))
+    ctx.set_exhaustive('trees-nonstring-names', True)
     # every tree once from fresh nodes and once from deepcopies that share one uid per label
     base = all_trees(ctx.pick(4, 5), 'ab')
     run_tree_pool(ctx, 'trees-shared-uid', base + base, workers=ctx.pick(1, 6),
